@@ -291,3 +291,317 @@ def version_gate(run, src):
     except (Unsupported, FunctionMissing) as u:
         run.undecide("system.System.from_file/version-gate", str(u))
     return obls
+
+
+# =================================================================================================== C10: interpolators
+class NdArr:
+    """numpy array of a (nested) python list, row-major (assumed contract of np.asarray / reshape / tolist)"""
+    def __init__(self, data): self.data = data
+
+
+def interp_obligations(run, src):
+    obls = []
+    Rl = z3.RealSort()
+    # ---- _Interp0d
+    try:
+        eng = Engine(src); c = z3.Real("c")
+        paths = eng.explore(lambda e: e.call_method(e.new_object("_Interp0d", [SV(c, "real")]), "_interp", [SV(z3.Real("x"), "real"), SV(z3.Real("y"), "real")]))
+        for pi, p in enumerate(paths):
+            obls.append({"id": "components._Interp0d._interp/post:the constant@p%d" % pi, "hyps": p.pc, "goal": (to_z(p.value, "real") == c) if p.kind == "return" else z3.BoolVal(False), "kind": "post", "tags": ["C10"], "meta": {}})
+            obls.append({"id": "components._Interp0d._interp/canary@p%d" % pi, "hyps": p.pc, "goal": (to_z(p.value, "real") == c + 1) if p.kind == "return" else z3.BoolVal(True), "kind": "canary", "tags": ["C10"], "meta": {}})
+        run.functions.update(eng.inlined)
+    except (Unsupported, FunctionMissing) as u:
+        run.undecide("components._Interp0d._interp/post", str(u))
+    # ---- _Interp1d: np.interp(|x|, |xs|, |fs|), independent of y
+    try:
+        eng = Engine(src)
+        ARR = z3.DeclareSort("Arr"); ABSA = z3.Function("abs_array", ARR, ARR); INTERP = z3.Function("np_interp", Rl, ARR, ARR, Rl)
+        xs, fs = z3.Consts("xs fs", ARR)
+        eng.np.methods["asarray"] = lambda e, a, **k: a
+        orig_abs = eng.np.methods["abs"]
+        eng.np.methods["abs"] = lambda e, a: SV(ABSA(a.z)) if (is_sym(a) and a.z.sort() == ARR) else orig_abs(e, a)
+        eng.np.methods["interp"] = lambda e, x, xp, fp: SV(INTERP(to_z(x, "real"), xp.z, fp.z), "real")
+        x, y = z3.Real("x"), z3.Real("y")
+        paths = eng.explore(lambda e: e.call_method(e.new_object("_Interp1d", [SV(xs), SV(fs)]), "_interp", [SV(x, "real"), SV(y, "real")]))
+        for pi, p in enumerate(paths):
+            want = INTERP(z3.If(x >= 0, x, -x), ABSA(xs), ABSA(fs))
+            obls.append({"id": "components._Interp1d._interp/post:np.interp(|x|, |xs|, |fs|), independent of y@p%d" % pi, "hyps": p.pc, "goal": (to_z(p.value, "real") == want) if p.kind == "return" else z3.BoolVal(False), "kind": "post", "tags": ["C10"], "meta": {}})
+        run.functions.update(eng.inlined)
+        run.assumed.add("np.interp(x, xp, fp): piecewise-linear interpolation over increasing xp, clamped to fp[0] / fp[-1] outside (validated boundedly by C10-B1)")
+    except (Unsupported, FunctionMissing) as u:
+        run.undecide("components._Interp1d._interp/post", str(u))
+    # ---- _Interp2d._interp: result = _intp(clamp_x(x), clamp_y(y)), never NaN, given 'NaN exactly outside [xmin,xmax]x[ymin,ymax]'
+    try:
+        eng = Engine(src)
+        VAL = z3.Function("intp_value", Rl, Rl, Rl)
+        xmin, xmax, ymin, ymax = z3.Reals("xmin xmax ymin ymax")
+        def intp_call(e, xl, yl):
+            xz, yz = to_z(xl[0], "real"), to_z(yl[0], "real")
+            outside = z3.Or(xz < xmin, xz > xmax, yz < ymin, yz > ymax)
+            e.event("intp", x=xz, y=yz)
+            return [Opaque("maybe_nan", attrs={"is_nan": outside, "val": VAL(xz, yz), "x": xz, "y": yz})]
+        x, y = z3.Real("x"), z3.Real("y")
+        def thunk(e):
+            e.assume(xmin <= xmax); e.assume(ymin <= ymax)
+            obj = PyObj("_Interp2d", {"_xmin": SV(xmin, "real"), "_xmax": SV(xmax, "real"), "_ymin": SV(ymin, "real"), "_ymax": SV(ymax, "real")})
+            from pyvc.engine import Builtin
+            obj.attrs["_intp"] = Builtin("_intp", intp_call)
+            return e.call_method(obj, "_interp", [SV(x, "real"), SV(y, "real")])
+        paths = eng.explore(thunk)
+        cx = z3.If(x < xmin, xmin, z3.If(x > xmax, xmax, x)); cy = z3.If(y < ymin, ymin, z3.If(y > ymax, ymax, y))
+        for pi, p in enumerate(paths):
+            if p.kind != "return" or not isinstance(p.value, Opaque):
+                obls.append({"id": "components._Interp2d._interp/never-raises@p%d" % pi, "hyps": p.pc, "goal": z3.BoolVal(False), "kind": "post", "tags": ["C10"], "meta": {}}); continue
+            r = p.value
+            obls.append({"id": "components._Interp2d._interp/post:queried at the clamped point@p%d" % pi, "hyps": p.pc, "goal": z3.And(r.attrs["x"] == cx, r.attrs["y"] == cy), "kind": "post", "tags": ["C10"], "meta": {}})
+            obls.append({"id": "components._Interp2d._interp/post:never NaN@p%d" % pi, "hyps": p.pc, "goal": z3.Not(r.attrs["is_nan"]), "kind": "post", "tags": ["C10"], "meta": {}})
+            obls.append({"id": "components._Interp2d._interp/canary@p%d" % pi, "hyps": p.pc, "goal": r.attrs["x"] == x, "kind": "canary", "tags": ["C10"], "meta": {}})
+        run.functions.update(eng.inlined)
+        run.assumed.add("scipy LinearNDInterpolator on the flattened grid: NaN exactly outside [xmin,xmax]x[ymin,ymax], piecewise linear inside (validated boundedly by C10-B1)")
+    except (Unsupported, FunctionMissing) as u:
+        run.undecide("components._Interp2d._interp/post", str(u))
+    obls += flatten_obligations(run, src)
+    return obls
+
+
+def flatten_obligations(run, src):
+    """C10-P4 (bounded in SHAPE, symbolic in values): the constructors hand the interpolator the points
+    (|io[j mod m]|, |vi[j div m]|) with value |tbl[j div m][j mod m]|, for table shapes up to 3 x 4"""
+    obls = []
+    forms = [("Converter", "eff", {"vo": 5.0}), ("VLoss", "vdrop", {}), ("LinReg", "ig", {"vo": 5.0}), ("PSwitch", "ig", {}), ("PMux", "ig", {}), ("Rectifier", "vdrop", {}), ("Rectifier", "ig", {})]
+    for cls, key, extra in forms:
+        for nv, ni in ((2, 2), (2, 3), (3, 2), (3, 4)):
+            base = "components.%s.__init__[%s table %dx%d]" % (cls, key, nv, ni)
+            io = [z3.Real("io%d" % j) for j in range(ni)]; vi = [z3.Real("vi%d" % j) for j in range(nv)]
+            tb = [[z3.Real("t%d_%d" % (a, b)) for b in range(ni)] for a in range(nv)]
+            captured = []
+            eng = Engine(src)
+            eng.overrides["components._check_interp"] = lambda e, recv, a, k: None
+            def asarray(e, a, **k): return NdArr(a)
+            eng.np.methods["asarray"] = asarray
+            eng.np.methods["min"] = lambda e, a: _nested(e, a, "min")
+            eng.np.methods["max"] = lambda e, a: _nested(e, a, "max")
+            orig_abs = eng.np.methods["abs"]
+            eng.np.methods["abs"] = lambda e, a: [orig_abs(e, v) for v in a] if isinstance(a, list) else orig_abs(e, a)
+            def lnd(e, pts, vals, captured=captured):
+                captured.append((list(pts), list(vals))); return Opaque("LinearNDInterpolator")
+            eng.extra_globals["LinearNDInterpolator"] = Builtin_fn(lnd)
+            patch_ndarr(eng)
+            def thunk(e):
+                del captured[:]
+                tbl = {"vi": [SV(v, "real") for v in vi], "io": [SV(v, "real") for v in io], key: [[SV(t, "real") for t in row] for row in tb]}
+                if cls == "Converter":
+                    for row in tb:
+                        for t in row: e.assume(z3.And(t > 0, t <= 1))
+                elif key == "ig":
+                    for row in tb:
+                        for t in row: e.assume(t >= 0)
+                obj = e.new_object(cls, ["X"], dict(extra, **{key: tbl}))
+                return obj, list(captured)
+            try:
+                paths = eng.explore(thunk)
+            except (Unsupported, FunctionMissing) as u:
+                run.undecide(base, str(u)); continue
+            run.functions.update(q for q in eng.inlined)
+            for pi, p in enumerate(paths):
+                if p.kind != "return":
+                    obls.append({"id": base + "/accepted@p%d" % pi, "hyps": p.pc, "goal": z3.BoolVal(False), "kind": "post", "tags": ["C10"], "meta": {}}); continue
+                obj, cap = p.value
+                ok = len(cap) == 1 and len(cap[0][0]) == nv * ni and len(cap[0][1]) == nv * ni
+                goals = [z3.BoolVal(bool(ok))]
+                if ok:
+                    for j in range(nv * ni):
+                        px, py = cap[0][0][j]
+                        goals.append(z3.And(to_z(px, "real") == zabs(io[j % ni]), to_z(py, "real") == zabs(vi[j // ni]), to_z(cap[0][1][j], "real") == zabs(tb[j // ni][j % ni])))
+                obls.append({"id": base + "/post:interpolator receives (|io|, |vi|, |value|) row-major@p%d" % pi, "hyps": p.pc, "goal": z3.And(*goals), "kind": "post", "tags": ["C10"], "meta": {}})
+                ipr = obj.attrs.get("_ipr")
+                if isinstance(ipr, PyObj) and ipr.cls == "_Interp2d":
+                    def mn(ts): 
+                        r = zabs(ts[0])
+                        for t in ts[1:]: r = z3.If(zabs(t) < r, zabs(t), r)
+                        return r
+                    def mx(ts):
+                        r = zabs(ts[0])
+                        for t in ts[1:]: r = z3.If(zabs(t) > r, zabs(t), r)
+                        return r
+                    g = z3.And(to_z(ipr.attrs["_xmin"], "real") == mn(io), to_z(ipr.attrs["_xmax"], "real") == mx(io), to_z(ipr.attrs["_ymin"], "real") == mn(vi), to_z(ipr.attrs["_ymax"], "real") == mx(vi))
+                    obls.append({"id": base + "/post:clamp bounds = range of |io| and |vi|@p%d" % pi, "hyps": p.pc, "goal": g, "kind": "post", "tags": ["C10"], "meta": {}})
+                else:
+                    obls.append({"id": base + "/post:2-D interpolator built@p%d" % pi, "hyps": p.pc, "goal": z3.BoolVal(False), "kind": "post", "tags": ["C10"], "meta": {}})
+    run.assumed.add("np.asarray(nested list).reshape(1,-1)[0].tolist(): row-major flattening")
+    run.notes.append("table flattening (C10-P4) is proved for concrete table shapes 2x2, 2x3, 3x2, 3x4 with symbolic contents: bounded in shape, labelled so")
+    return obls
+
+
+def Builtin_fn(fn):
+    from pyvc.engine import Builtin
+    return Builtin(getattr(fn, "__name__", "fn"), fn)
+
+
+def _nested(e, a, which):
+    flat = []
+    def walk(v):
+        if isinstance(v, (list, tuple)): [walk(x) for x in v]
+        elif isinstance(v, NdArr): walk(v.data)
+        else: flat.append(v)
+    walk(a)
+    from pyvc.engine import BUILTINS
+    return BUILTINS[which].fn(e, *flat) if len(flat) > 1 else flat[0]
+
+
+def patch_ndarr(eng):
+    """NdArr support: .reshape(1,-1), [0], .tolist()"""
+    orig_get, orig_item = eng.getattr_, eng.getitem
+    def getattr_(base, attr, node=None):
+        if isinstance(base, NdArr):
+            from pyvc.engine import Builtin
+            if attr == "reshape":
+                def reshape(e, a, b, _b=base):
+                    flat = []
+                    def walk(v):
+                        if isinstance(v, (list, tuple)): [walk(x) for x in v]
+                        else: flat.append(v)
+                    walk(_b.data)
+                    if (a, b) != (1, -1): raise Unsupported("reshape%r" % ((a, b),))
+                    return NdArr([flat])
+                return Builtin("ndarray.reshape", reshape)
+            if attr == "tolist": return Builtin("ndarray.tolist", lambda e, _b=base: list(_b.data))
+            if attr == "shape":
+                sh, d = [], base.data
+                while isinstance(d, list): sh.append(len(d)); d = d[0] if d else None
+                return tuple(sh)
+            raise Unsupported("ndarray." + attr)
+        return orig_get(base, attr, node)
+    def getitem(base, idx, node=None):
+        if isinstance(base, NdArr):
+            v = base.data[idx]
+            return NdArr(v) if isinstance(v, list) else v
+        return orig_item(base, idx, node)
+    eng.getattr_, eng.getitem = getattr_, getitem
+
+
+# =================================================================================================== C13: TOML loader
+GENERIC = ["Source", "PLoad", "ILoad", "RLoad", "RLoss", "VLoss", "Converter", "PSwitch", "PMux", "Rectifier"]
+_GOOD = {"vo": 5.0, "rs": 0.5, "pwr": 1.0, "pwrs": 0.1, "rt": 2.0, "ii": 0.3, "iis": 0.01, "eff": 0.8, "iq": 1e-3, "ig": 1e-3, "vdrop": 0.2, "loss": True}
+
+
+def toml_obligations(run, src):
+    """C13-P1/P2: the generic loader _Component.from_file builds cls(name, **values) with file values for present keys and
+    the schema default for absent optional ones; KeyError for a missing mandatory key; ValueError for a wrongly typed value;
+    schema defaults == constructor defaults; schema keys are constructor keywords."""
+    import itertools
+    obls = []
+    for cls in GENERIC:
+        base = "components.%s.from_file" % cls
+        try:
+            cp = src.class_literal(cls, "_cparams")
+            _, init = src.method(cls, "__init__")
+        except FunctionMissing as m:
+            run.undecide(base, str(m)); continue
+        kw_defaults = {a.arg: d for a, d in zip(init.args.kwonlyargs, init.args.kw_defaults)}
+        mod = src.module_of_class(cls)
+        # ---- P2 (finite, exhaustive; backend 'ast')
+        for k, sc in cp["params"].items():
+            okk = k in kw_defaults
+            obls.append({"id": "%s/schema key %s is a constructor keyword" % (base, k), "hyps": [], "goal": z3.BoolVal(okk), "kind": "post", "tags": ["C13"], "meta": {}})
+            if okk and sc["opt"]:
+                d = kw_defaults[k]
+                try: dv = eval(compile(ast.Expression(d), "<d>", "eval"), {"__builtins__": {}}, dict(mod.consts)) if d is not None else None
+                except Exception: dv = "<not literal>"
+                obls.append({"id": "%s/schema default of %s (%r) == constructor default (%r)" % (base, k, sc.get("def"), dv), "hyps": [], "goal": z3.BoolVal(d is not None and dv == sc.get("def") and type(dv) == type(sc.get("def")) or (d is not None and dv == sc.get("def") and isinstance(dv, (int, float)) and not isinstance(dv, bool))), "kind": "post", "tags": ["C13"], "meta": {}})
+            if okk and not sc["opt"]:
+                obls.append({"id": "%s/mandatory key %s has no constructor default" % (base, k), "hyps": [], "goal": z3.BoolVal(kw_defaults[k] is None or cls == "Rectifier"), "kind": "post", "tags": ["C13"], "meta": {}})
+        # ---- P1: every presence pattern of the optional keys (mandatory present), numeric values symbolic
+        keys = list(cp["params"])
+        opt = [k for k in keys if cp["params"][k]["opt"]]; mand = [k for k in keys if not cp["params"][k]["opt"]]
+        def value(k, wrong=False):
+            if wrong: return "text"
+            if k == "loss": return True
+            if k == "rs" and cls == "PMux" and False: return [0.1, 0.2]
+            t = cp["params"][k]["typ"]
+            return SV(z3.Real("%s.%s" % (cls, k)), "real", pytype=float)
+        for present in itertools.product([True, False], repeat=len(opt)):
+            for with_limits in (True, False):
+                pres = dict(zip(opt, present)); pres.update({k: True for k in mand})
+                sect = {k: value(k) for k in keys if pres[k]}
+                lim = {"vi": [0.0, 3.0]}
+                config = {cp["name"]: sect}
+                if with_limits: config["limits"] = lim
+                label = "[present: %s%s]" % (",".join(k for k in keys if pres[k]), ";limits" if with_limits else "")
+                r1 = _run_loader(src, cls, config)
+                direct_kw = dict(sect); 
+                if with_limits: direct_kw["limits"] = lim
+                r2 = _run_direct(src, cls, direct_kw)
+                if r1 is None or r2 is None:
+                    run.undecide(base + label, "unsupported"); continue
+                run.functions.add("components._Component.from_file"); run.functions.add("components.%s.__init__" % cls)
+                obls += _compare_builds(base + label, r1, r2)
+        # missing mandatory key -> KeyError ; wrong type -> ValueError, nothing built
+        for k in mand:
+            sect = {q: value(q) for q in keys if q != k}
+            r = _run_loader(src, cls, {cp["name"]: sect})
+            ok = r is not None and all(p.kind == "raise" and p.value.etype == "KeyError" for p in r)
+            obls.append({"id": "%s/missing mandatory key %s raises KeyError" % (base, k), "hyps": [], "goal": z3.BoolVal(bool(ok)), "kind": "post", "tags": ["C13"], "meta": {}})
+        for k in keys:
+            for wrongv, wl in (("text", "str"), (True, "bool"), ([1.0], "list"), (None, "none")):
+                typ = cp["params"][k]["typ"]
+                if type(wrongv) in typ or wrongv is None and False: continue
+                if wrongv is None: continue
+                sect = {q: value(q) for q in keys}; sect[k] = wrongv
+                r = _run_loader(src, cls, {cp["name"]: sect})
+                ok = r is not None and all(p.kind == "raise" and p.value.etype == "ValueError" and not p.value.implicit for p in r)
+                obls.append({"id": "%s/value of the wrong type (%s) for %s is rejected with ValueError" % (base, wl, k), "hyps": [], "goal": z3.BoolVal(bool(ok)), "kind": "post", "tags": ["C13"], "meta": {}})
+    run.assumed.add("toml.load returns the file's tables as nested dicts with python scalars / lists (validated boundedly by C13-B1)")
+    return obls
+
+
+def _run_loader(src, cls, config):
+    eng = Engine(src)
+    from pyvc.engine import Builtin
+    eng.extra_globals["open"] = Builtin("open", lambda e, *a, **k: Opaque("file"))
+    eng.extra_globals["toml"] = Opaque("toml", methods={"load": lambda e, f: {k: (dict(v) if isinstance(v, dict) else v) for k, v in config.items()}})
+    try:
+        return eng.explore(lambda e: e.call_value(e.getattr_(ClassRef(cls), "from_file"), ["X"], {"fname": "f.toml"}, None))
+    except (Unsupported, FunctionMissing):
+        return None
+
+
+def _run_direct(src, cls, kw):
+    eng = Engine(src)
+    try:
+        return eng.explore(lambda e: e.new_object(cls, ["X"], dict(kw)))
+    except (Unsupported, FunctionMissing):
+        return None
+
+
+def _state_terms(obj):
+    out = {}
+    for k, v in obj.attrs.get("_params", {}).items(): out["_params." + k] = v
+    ipr = obj.attrs.get("_ipr")
+    out["_ipr.kind"] = ipr.cls if isinstance(ipr, PyObj) else type(ipr).__name__
+    if isinstance(ipr, PyObj) and "_x" in ipr.attrs: out["_ipr._x"] = ipr.attrs["_x"]
+    out["_limits"] = obj.attrs.get("_limits")
+    return out
+
+
+def _compare_builds(base, loader_paths, direct_paths):
+    """for every pair (loader path, direct path) with compatible path conditions the outcomes agree"""
+    obls = []
+    for i, a in enumerate(loader_paths):
+        for j, b in enumerate(direct_paths):
+            hyps = a.pc + b.pc
+            if not solver.satisfiable(hyps, 3)[0]: continue
+            if a.kind != b.kind:
+                obls.append({"id": "%s:loader and constructor agree on acceptance@p%d,%d" % (base, i, j), "hyps": hyps, "goal": z3.BoolVal(False), "kind": "post", "tags": ["C13"], "meta": {}}); continue
+            if a.kind == "raise":
+                obls.append({"id": "%s:same exception type@p%d,%d" % (base, i, j), "hyps": hyps, "goal": z3.BoolVal(a.value.etype == b.value.etype), "kind": "post", "tags": ["C13"], "meta": {}}); continue
+            sa, sb = _state_terms(a.value), _state_terms(b.value)
+            goals = [z3.BoolVal(set(sa) == set(sb) and a.value.cls == b.value.cls)]
+            if set(sa) == set(sb):
+                for k in sa:
+                    x, y = sa[k], sb[k]
+                    if is_sym(x) or is_sym(y): goals.append(to_z(x, "real") == to_z(y, "real") if not ((is_sym(x) and x.sort == "bool") or isinstance(x, bool)) else to_z(x) == to_z(y))
+                    else: goals.append(z3.BoolVal(x == y and type(x) == type(y)))
+            obls.append({"id": "%s:component built by the loader == constructor call (params, interpolator, limits)@p%d,%d" % (base, i, j), "hyps": hyps, "goal": z3.And(*goals), "kind": "post", "tags": ["C13"], "meta": {}})
+            obls.append({"id": "%s:canary@p%d,%d" % (base, i, j), "hyps": hyps, "goal": z3.BoolVal(False), "kind": "canary", "tags": ["C13"], "meta": {}})
+    return obls
